@@ -30,6 +30,14 @@ claimed = {
    "Only the clauses of C07 that have an I/O dimension are claimed: the canonicaliser consumes an io.Reader token by token. Stream-fault enumeration over every JSON text the system produces or publishes (corpus envelopes and documents, published regime/addon/schema files, a few literals): every chunking regime including 1-byte and zero-length reads must reproduce the whole-buffer result; the stream ending after n bytes for every n (exhaustive for texts ≤ 4 KiB in thorough, seeded offsets above) must be rejected unless the prefix is one complete value; a reader failing after n bytes must give an error, never output; trailing non-whitespace and empty streams are rejected without panic; transport re-encodings (member order, whitespace, escape style, null members added first/last, re-chunked) must give identical canonical bytes, equal to a reference canonicaliser written from c14n/README.md, and canonicalise to themselves. The sorting/number/escape tables over arbitrary JSON values are a pure function and are NOT decided by this check beyond those texts.",
    "Texts are what the system itself serialises or ships plus a dozen literals; the reference canonicaliser does not assert floats with more than 15 significant digits nor the sign of zero.",
    "deterministic stream-fault enumeration (chunking, torn EOF at every offset, read errors, trailing bytes, re-encoding) over a simulated reader, reference-canonicaliser oracle"),
+ "C14": ("fault_enumeration", "§5 C14",
+   "Fault enumeration in child processes over every corpus document: member-level transport faults at every JSON pointer (member lost / nulled / retyped / duplicated, array element lost / duplicated / nulled, leaf altered, unknown currency / country / regime / addon / schema codes, empty / null / garbage signature entries, header without digest) and byte-level stream faults (torn EOF, read error, stall until the context is cancelled, cancellation before the read, bit flips, chunking, zero-length reads) through gobl.Parse, json.Unmarshal, c14n and cli.Build/Validate/Verify/Sign/Correct/Replicate over simulated readers; whatever parses goes through the full chain calculate → validate → digest → sign → verify → correct → replicate; amplification inputs (nesting depth up to 100 000, 1 MiB digit strings, thousands of lines); and scheduler-controlled bulk streams (CLI and HTTP style) in which malformed requests are interleaved with well-formed ones. Oracles: no panic (recovered per operation; a worker panic kills the child and is attributed by the parent), every error of the envelope API is a *gobl.Error with a key declared in errors.go that serialises to JSON, every CLI error is a *cli.Error with a status, a stalled read is released by cancelling its context, every bulk stream still delivers exactly one correct response per request and its final marker within the step bound.",
+   "The arbitrary-bytes input space is covered only as far as these fault operators derive it from real documents. 25 open known findings of one class (a JSON null inside an array of objects is dereferenced) are listed in known_findings.json by panic site; any other panic site is a violation.",
+   "deterministic fault enumeration (member/byte/stream faults, cancellation, amplification) with panic-site signatures; crash detection across child processes"),
+ "C15": ("exploration", "§5 C15",
+   "Four checks. (bulk, deterministic) seeded schedule search over 1–3 concurrent bulk streams, CLI-style and HTTP-style, of 1–40 mixed requests: gobl's decoder and worker goroutines park at build-tag-guarded yield hooks, the simulated reader, the consumer and a virtual clock are scheduler actions, and a seeded weighted scheduler with starvation directives grants one task at a time inside a synctest bubble; oracle: exactly one response per accepted request with its req_id and 1-based position, payload equal to the same request executed alone at the same simulated instant, one final marker, last, seq n+1, error iff the stream ended in a decode error, and completion within a step bound. (interleave, deterministic) 2–8 library callers over independent documents advanced in scheduler-chosen order, each step equal to the slot's solo run. (shared, deterministic) a deep fingerprint of every package-level variable of every gobl package (generated from the tree under test; slices hashed to capacity) is unchanged after every operation over every corpus document and every invoice × registered addon pairing. (race, monitor) the same workload on free-running goroutines in a -race binary at GOMAXPROCS 1/4/16.",
+   "Bulk requests operate on independent documents, so per-request equality with the standalone execution is the complete sequential specification. The race check is a runtime monitor of the Go scheduler's own interleavings (labelled as such in the evidence); its replay re-runs the workload until the detector reports again.",
+   "deterministic simulation: seeded parking scheduler over guarded yield hooks + shared-state fingerprint; race detector as monitor"),
 }
 na = {
  "C01": "pure function of the document: totals vs exact decimal arithmetic has no schedule, clock, fault or history in it (the only clock input, a missing issue date, enters no total)",
@@ -45,8 +53,6 @@ na = {
  "C20": "merge/negate laws and payment sums are algebra over values; 'operands unaltered' involves no schedule, clock or fault, so a history would only be input generation under another name",
 }
 pending = {
- "C14": "check under construction in this session (will be claimed; see DESIGN.md §5)",
- "C15": "check under construction in this session (will be claimed; see DESIGN.md §5)",
 }
 hooks_commit = "659d564"
 m = {
